@@ -15,7 +15,7 @@ from ..sdp import Skeleton, psd_ok
 from .C13 import cov_check, formula, schatten_class
 
 
-def layout_rule(ctx, f, pname="dim"):
+def layout_rule(ctx, f, pname="dim", quiet=False):
     """reshape whose shape is the (reversed) local-dimension vector: reversed <=> order='F'."""
     m = ctx.model
     og = origins(f)
@@ -42,7 +42,7 @@ def layout_rule(ctx, f, pname="dim"):
                f"{'reversed' if rev else 'plain'} dims with order='{r['order']}'" if ok else
                f"the amplitude vector is reshaped with {'reversed' if rev else 'unreversed'} local dims and order='{r['order']}': rows/columns no longer "
                "correspond to the two subsystems when the local dimensions differ", r["node"])
-    if n == 0:
+    if n == 0 and not quiet:
         ctx.ob("R-LAYOUT", f, "reshape(dims reversed)<=>order=F", None, "no reshape by the dimension vector found", required=False)
 
 
@@ -227,6 +227,11 @@ def run(ctx):  # noqa: C901
     ctx.ob("R-PRED", sv, "k >= min(dim) => plain Euclidean norm", okb, "shortcut condition" if okb else "shortcut condition changed")
     so = m.func("sk_norm.sk_operator_norm")
     _monotone_bounds(ctx, so)
+    # any reshape by the local-dimension vector, anywhere in the property's functions, pairs reversal with column-major order
+    for q_ in sorted(ctx.analysed_functions):
+        g_ = m.functions.get(q_)
+        if g_ is not None and g_.param("dim") is not None and g_.name not in ("schmidt_rank", "schmidt_decomposition"):
+            layout_rule(ctx, g_, "dim", quiet=True)
     sk_reference_forms(ctx, so)
     # Proposition 4.2.11: upper bound = (k^2, 2)-norm of the realigned operator
     Nso = Normalizer(m, so, inline=False)
